@@ -148,6 +148,7 @@ def run(rep, prog, tier):
     check_replay(rep, prog, ci, hb, raw, R)
     check_other_stores(rep, prog, ci, raw)
     check_consumers(rep, prog)
+    check_verdict_has_own_hash(rep, prog)
     check_header_octets(rep, prog)
 
 
@@ -163,6 +164,17 @@ def check_capture(rep, prog, ci, raw):
     rep.analysed['paths'] += len(outs)
     good = [sl('packet', ('', '2 + %s' % HL)) for HL in b2i_forms(S, sl('packet', ('', 2)))]
     pure = ('len', 'bytes', 'bytearray', 'memoryview', 'id', 'type', 'isinstance')
+    # "any legal length encoding": parse may not reject (raise) on a condition that depends on the RE-ENCODED size of a received
+    # subpacket (len(sp) / sp.__bytearray__() use the canonical length-field size, the wire may use a longer legal one)
+    reenc = re.compile(r'len\(\$[\d._]+\)|%s\.(%s|%s)\b|\.__bytearray__\(\)|\.__len__\(\)' % (re.escape(S), HASHED_COLL, UNHASHED_COLL))
+    for s in outs:
+        if s.raised is not None:
+            bad = [f[0] for f in s.facts if reenc.search(f[0])]
+            rep.check(not bad, 'C05.1', 'SubPackets.parse', 'rejects on re-encoded size: %s' % [b[:80] for b in bad],
+                      'a received signature is rejected on a condition computed from the re-encoded size of its subpackets: a legal '
+                      'non-minimal length encoding (e.g. a five-octet subpacket length) makes a valid signature unreadable', where=pf.where,
+                      expected='reject only on conditions over the received octets', found=bad)
+    outs = [s for s in outs if s.raised is None] or outs
     for s in outs:
         stores = [(i, e) for i, e in enumerate(s.events) if e[0] == 'store' and e[1] == R]
         if len(stores) != 1:
@@ -523,6 +535,44 @@ def check_consumers(rep, prog):
             raise AnalysisError('SignatureV4.canonical_bytes: %r is outside what the byte-term interpreter models' % unmodelled(render(s.ret)))
         rep.check(area == [want], 'C05.4', 'SignatureV4.canonical_bytes', 'hashed area term %s' % area,
                   'an attested signature is hashed with its hashed area as received', where=cb.where, expected=want, found=area)
+
+
+def check_verdict_has_own_hash(rep, prog):
+    """Every signature PGPKey.verify takes from its (signature, subject) pairs gets a verdict only after ITS OWN hashdata was
+    computed and checked on that path - or a failing verdict from the key / primitive checks.  A verdict reused from another
+    packet (a cache keyed by signer and signature value) lets a packet whose hashed region was altered inherit OK."""
+    from sa.looppaths import observe
+    vf = prog.method('pgpy.pgp', 'PGPKey', 'verify')
+    outs, recs = observe(prog, vf)
+    n = 0
+    seen = set()
+    for r in recs:
+        for status, facts, events, ys in r.paths:
+            calls = [e for e in events if e[0] == 'call']
+            for i, e in enumerate(calls):
+                if not e[1].endswith('.add_sigsubj') or len(e[2]) < 4:
+                    continue
+                sig, subj, verdict = e[2][0], e[2][2], e[2][3]
+                hashed = any(c[1] == '%s.hashdata' % sig and c[2][:1] == [subj] for c in calls[:i])
+                hd = '%s.hashdata(%s)' % (sig, subj)
+                # the verdict is computed from, or chosen by a decision over, the result of checking this signature's own hash
+                own = hashed and (hd in verdict or any(hd in t for t, v, sk in facts))
+                forced = []
+                for t, v, sk in facts:
+                    sigdata.implied_atoms(sk, v, forced)
+                failing = any(v is True and a[0] == 'expr' and a[1] == verdict + '.causes_signature_verify_to_fail' for a, v in forced)
+                key = (sig, subj, verdict, own, failing)
+                if key in seen:
+                    continue
+                seen.add(key)
+                n += 1
+                rep.check(own or failing, 'C05.4', 'PGPKey.verify', 'verdict %s for %s' % (verdict[:80], sig),
+                          'a signature gets a verdict that does not come from hashing that signature (its own hashdata on this path): a '
+                          'packet with the same signature value but an altered hashed region inherits the verdict of another', where=vf.where,
+                          expected='add_sigsubj(sig, ..., verdict of verify(sig.hashdata(subj), ...)) or a failing key/primitive verdict',
+                          found='decisions %s' % [(t[:60], v) for t, v, sk in facts][-3:])
+    if not n:
+        raise AnalysisError('PGPKey.verify: no verdict record found in its signature loop')
 
 
 # ------------------------------------------------------------------------------------------------ C05.5
